@@ -336,6 +336,19 @@ def run(ctx: Context) -> None:
     r2(ctx, sites)
     r3_r4(ctx, sites)
     r5(ctx, sites)
+    # what R1 hands to the history is what the atomic transition RETURNS: both backends must return the record they validated and
+    # wrote inside the critical section, not a later read of the store (shared with C01/R3)
+    ctx.rule("R6", "the record returned by each backend's atomic transition is the record it validated and wrote (not a re-read after the commit, which may already be another runner's change) - shared with C01/R3")
+    sub = Context("C01", ctx.repo, ctx.tier, ctx.seed)
+    sub._resolver = ctx._resolver
+    c01.r3_validate_dominates_write(sub)
+    n6 = 0
+    for i in sub.instances:
+        k = i.key.split("/", 2)[2]
+        if k.endswith("::returns-validated-record"):
+            n6 += 1
+            ctx.add("R6", k, i.ok, i.where, i.detail)
+    ctx.floor("R6", "transition implementations", n6, 2)
     ctx.exhaustive = True
     ctx.not_decided += [
         "ordering of entries under interleavings: entries are ordered by the creation time of the history object (taken right after the transition by the same thread), not by the status record's own timestamp - two transitions of one invocation by different runners could be recorded in swapped order; needs a schedule explorer",
